@@ -10,6 +10,8 @@ use std::sync::atomic::{AtomicUsize, Ordering};
 pub mod c01;
 pub mod c02;
 pub mod c03;
+pub mod c11;
+pub mod c12;
 pub mod c13;
 pub mod c14;
 pub mod c16;
@@ -156,6 +158,8 @@ fn main() {
                 "c03" => c03::replay(body),
                 "c16" => c16::replay(body),
                 "c13" => c13::replay(body),
+                "c12" => c12::replay(body),
+                "c11" => c11::replay(body),
                 "c14" => c14::replay(body),
                 "c17" => c17::replay(body),
                 p => {
@@ -206,6 +210,8 @@ fn main() {
                 "c03" => c03::run(&ctx),
                 "c16" => c16::run(&ctx),
                 "c13" => c13::run(&ctx),
+                "c12" => c12::run(&ctx),
+                "c11" => c11::run(&ctx),
                 "c14" => c14::run(&ctx),
                 "c17" => c17::run(&ctx),
                 _ => usage(),
